@@ -254,6 +254,7 @@ def run(rep, facts, tier):
     rule_09_6(rep, fx)
     rule_09_7(rep, fx)
     rule_09_8(rep, fx)
+    rule_09_9(rep, fx)
 
 
 # hazard key -> (class, reason); sites on the pinned tree, each read and judged
@@ -478,3 +479,53 @@ def rule_09_8(rep, fx):
               'the no_key DataReader drops disposes from a bounded result of the keyed DataReader without re-querying (%d filter site(s)), and a dispose received on a NO_KEY topic is '
               'stored in the keyed sample cache: take_next_sample()/read_next_sample() return None and take(n)/read(n) come back short while samples are available; an application '
               'that takes until nothing more is returned stops early and is not notified again' % len(filt), fl.where())
+
+
+def rule_09_9(rep, fx):
+    """A DATA that the RTPS Reader cannot turn into a change (structurally: its bytes decide, so a retransmission is no different) still consumes a sequence number. If the
+    writer proxy never hears of it, a Reliable reader waits for it forever and nothing the writer sends afterwards is delivered."""
+    rep.rule('R09.9', 'a rejected DATA is accounted for: in Reader::handle_data_msg every path from the Err result of data_to_dds_data to the return records the sequence number of '
+                      'that DATA in the writer proxy of its writer (set_irrelevant_change / received_changes_add, directly or through a Reader helper that applies it to its own '
+                      'parameters), so the reliable stream moves past a change it can make nothing of')
+    b = fx.find('rtps::reader::Reader::handle_data_msg')
+    rep.analysed(b)
+    og = Origins(b, summaries=False)
+    P = Pos(b)
+    edges = list(switch_edges(b, fx, og))
+    err = [(s_, t_) for s_, t_, cond, lab in edges if lab == 'Err' and cond[0] == 'discr' and term_has(cond, lambda x: x[0] == 'call' and x[1].endswith('Reader::data_to_dds_data'))]
+    if not err:
+        raise CheckBroken('handle_data_msg: Err edge of data_to_dds_data not found')
+    # helpers: Reader methods that record one of their parameters as irrelevant/received in the proxy looked up by another parameter
+    recorders = set()
+    for h in fx.bodies:
+        if not h.key.startswith('rtps::reader::Reader::') or h.kind not in ('fn', 'assoc_fn'):
+            continue
+        ogh = Origins(h, summaries=False)
+        for bb, t in h.calls():
+            if callee_res(t).endswith(('RtpsWriterProxy::set_irrelevant_change', 'RtpsWriterProxy::received_changes_add')):
+                sn = ogh.of_operand(t['args'][1], bb, 'term')
+                wp = ogh.of_operand(t['args'][0], bb, 'term')
+                if _strip9(sn)[0] == 'param' and term_has(wp, lambda x: x[0] == 'call' and x[1].endswith('matched_writer_mut') and term_has(x, lambda y: y[0] == 'param' and y[1] >= 2)):
+                    recorders.add((h.key, _strip9(sn)[1]))
+    sinks = []
+    for bb, t in b.calls():
+        cr = norm_path(callee_res(t))
+        for hk, pi in recorders:
+            if cr == hk and len(t['args']) >= pi:
+                v = og.of_operand(t['args'][pi - 1], bb, 'term')
+                if term_has(v, lambda x: x[0] == 'field' and x[1] == 'writer_sn'):
+                    sinks.append((bb, 'term'))
+    ok = bool(sinks)
+    for s_, t_ in err:
+        for r in b.return_blocks():
+            if P.can_reach((t_, 0), (r, 'term'), avoid_pos=sinks):
+                ok = False
+    rep.check(ok, 'R09.9', 'handle_data_msg/rejected-data-accounted', 'Err => the DATA\'s writer_sn is recorded in the writer proxy on every path',
+              'Reader::handle_data_msg only logs when data_to_dds_data rejects a DATA: its sequence number is never recorded in the writer proxy, so a Reliable reader requests it forever '
+              '(the retransmission is rejected the same way) and delivers no later sample of that writer', b.where(err[0][0]))
+
+
+def _strip9(t):
+    while isinstance(t, tuple) and t and t[0] in ('ref', 'deref', 'copy', 'move') and len(t) > 1 and isinstance(t[1], tuple):
+        t = t[1]
+    return t
